@@ -591,7 +591,9 @@ impl Symbol {
     /// value is escaped using the decimal escape sequence.
     #[must_use]
     pub fn from_octet(ch: u8) -> Self {
-        if ch == b' ' || ch == b'"' || ch == b'\\' || ch == b';' {
+        if matches!(ch, b' ' | b'"' | b'\\' | b';' | b'(' | b')') {
+            // Outside quotes, parentheses group lines, so they need
+            // escaping just like the space and the comment character.
             Symbol::SimpleEscape(ch)
         } else if !(0x20..0x7F).contains(&ch) {
             Symbol::DecimalEscape(ch)
